@@ -34,8 +34,20 @@ func (e *AutoEscapeExtension) Init(env *stick.Env) error {
 
 		escfn, ok := e.Escapers[ct]
 		if !ok {
-			// TODO: Communicate error, no escaper for the specified content type.
-			return val
+			if ct == "txt" {
+				// Plain text needs no escaping.
+				return val
+			}
+			// No escaper is registered for this content type, for example the extension
+			// of an XML file or the text after the last dot of an inline template.
+			// Never emit the value unescaped: fall back to HTML like for any other template.
+			ct = "html"
+			if sval, ok := val.(stick.SafeValue); ok && sval.IsSafe(ct) {
+				return val
+			}
+			if escfn, ok = e.Escapers[ct]; !ok {
+				return val
+			}
 		}
 
 		return stick.NewSafeValue(escfn(stick.CoerceString(val)), ct)
